@@ -79,7 +79,11 @@ func malformedAllStream(cfg *Config) *hx.Stats {
 	kinds := map[string]int{}
 	var obsMu sync.Mutex
 	obsEncodePanic := 0
-	try := func(id atree.SlabID, b []byte, what string) {
+	accepted := 0
+	obsHuge := 0
+	var tryT func(id atree.SlabID, b []byte, what string, limit time.Duration)
+	try := func(id atree.SlabID, b []byte, what string) { tryT(id, b, what, 2*time.Second) }
+	tryT = func(id atree.SlabID, b []byte, what string, limit time.Duration) {
 		done := make(chan string, 1)
 		go func() {
 			defer func() {
@@ -92,6 +96,9 @@ func malformedAllStream(cfg *Config) *hx.Stats {
 			_, _ = atree.HasSizeLimit(b)
 			s, err := atree.DecodeSlab(id, b, hx.DecMode(), hx.DecodeStorable, hx.DecodeTypeInfo)
 			if err == nil && s != nil {
+				obsMu.Lock()
+				accepted++
+				obsMu.Unlock()
 				_ = s.ByteSize()
 				_ = s.ChildStorables()
 				// Re-encoding an accepted slab is NOT part of C19 (the property names decoding, the header
@@ -105,6 +112,14 @@ func malformedAllStream(cfg *Config) *hx.Stats {
 							obsMu.Unlock()
 						}
 					}()
+					// (observation O1: canBeEncodedAsCompactMap allocates by the extra-data count of the
+					// register; with a count of billions the call would exhaust memory, so it is not made)
+					if _, huge := compactCountMismatch(atree.VerifDumpSlab(s, hx.Describe)); huge {
+						obsMu.Lock()
+						obsHuge++
+						obsMu.Unlock()
+						return
+					}
 					_, _ = atree.EncodeSlab(s, hx.EncMode())
 				}()
 			}
@@ -115,8 +130,14 @@ func malformedAllStream(cfg *Config) *hx.Stats {
 			if r != "" {
 				viol(fmt.Sprintf("%s of register %s (%d bytes: %x): %s", what, hx.IDStr(id), len(b), b, r))
 			}
-		case <-time.After(2 * time.Second):
-			viol(fmt.Sprintf("%s of register %s: decoding does not return within 2 s (%x)", what, hx.IDStr(id), b))
+		case <-time.After(limit):
+			if limit < 60*time.Second {
+				// a loaded machine can starve the goroutine for seconds: only a call that does not
+				// return within a minute either is reported as a hang
+				tryT(id, b, what, 60*time.Second)
+				return
+			}
+			viol(fmt.Sprintf("%s of register %s: decoding does not return within 60 s (%x)", what, hx.IDStr(id), b))
 		}
 		st.Ops++
 	}
@@ -163,11 +184,29 @@ func malformedAllStream(cfg *Config) *hx.Stats {
 			try(id, b, "mutation")
 		}
 	}
+	// registers built from the slab grammar with per-field valid / boundary / invalid choices (grammar.go)
+	nGram := int(12000 * cfg.Scale)
+	obsMu.Lock()
+	acc0 := accepted
+	obsMu.Unlock()
+	for i := 0; i < nGram && len(st.Violations) < 20; i++ {
+		data, _ := genRegister(cfg.Seed*7000003+int64(i)+1<<40, i%2 == 1)
+		try(hx.MkIDn(0x0102030405060708, uint64(1+i%200)), data, "grammar-built register")
+	}
+	st.Dist["grammar-built"] = nGram
+	obsMu.Lock()
+	gramOK := accepted - acc0
+	obsMu.Unlock()
+	st.Dist["grammar-built:accepted"] = gramOK
+	if nGram > 0 && 100*gramOK < 30*nGram && len(st.Violations) == 0 {
+		st.HarnessErr = fmt.Sprintf("grammar-aware generator: only %d of %d registers accepted (< 30%%)", gramOK, nGram)
+	}
 	for k, v := range kinds {
 		st.Dist[k] = v
 	}
 	obsMu.Lock()
 	st.Dist["observation:re-encode-of-accepted-mutant-panics"] = obsEncodePanic
+	st.Dist["observation:re-encode-of-accepted-mutant-huge-count-not-called"] = obsHuge
 	obsMu.Unlock()
 	st.Distinct = int(st.Ops)
 	st.Samples = append(st.Samples, fmt.Sprintf("%d registers (map data/index/collision-group, inlined arrays/maps, wrappers, compact maps, large values, array data/index): every truncation + %d mutations each", st.Programs, perReg))
